@@ -41,6 +41,14 @@ def run(ctx):
     ]
     with core.Lock():
         ok = gen(ctx) is not None
+        # T-tie: the Python half of decertify (rows to delete, pieces to insert) is translated into Gen/DecertifyPy.lean;
+        # C04.Translated.translated_decertify identifies it with Calib.decertify
+        try:
+            import gen_decertify
+
+            gen_decertify.generate(core.GEN_DIR)
+        except Exception as e:  # Untranslatable or anything else: the tie is broken, the search below still runs
+            ctx.broken.append(f"translation: decertify: {type(e).__name__}: {e}")
         built = ok and core.lean_build(ctx, LEAN_TARGETS)
         if built:
             core.lean_audit(ctx, ["ButlerModel.Props.C04"])
